@@ -264,7 +264,7 @@ def known_kinds():
 
 
 def run(ctx):
-    n = ctx.n(5000, 40000)
+    n = ctx.n(1200, 40000)
     texts, dist = gens_ws.ws_texts(ctx.rng, n)
     texts = common.corpus('filters_ws') + texts
     res = {'disagreements': [], 'failures': []}
@@ -287,7 +287,14 @@ def run(ctx):
     per_stage['swwf'] = {'compared': len(texts), 'not_wf': len(not_wf)}
     if not_wf:
         res['disagreements'].append({'stage': 'sw_wf fails on a parsed statement', 'input': [ord(c) for c in not_wf[0]]})
-    kinds = sweep(texts)
+    # the normal-form / fixed-point oracle quantifies over scripts of the verification grammar: junk, unicode soup and
+    # spliced texts are used for the correspondence stages only
+    gtexts = []
+    while len(gtexts) < ctx.n(1200, 20000):
+        t, k = gens_ws.ws_text(ctx.rng)
+        if k in GRAMMAR_KINDS and len(t) <= 1500:
+            gtexts.append(t)
+    kinds = sweep(gtexts)
     res['failures'] = _pick_failures(kinds)
     res.update({
         'evaluations': len(texts) * (len(STAGES) + 2),
@@ -312,6 +319,13 @@ def run_oracle_only(ctx):
 
 
 # ---- known findings: a failure belongs to one only if the MECHANISM of that finding is present --------------------
+GRAMMAR_KINDS = ('sql_ws', 'template', 'proc_ws', 'mixed:sql')
+
+
+def _txt_in(f):
+    return ''.join(map(chr, f.get('input', [])))
+
+
 def _has_comment(text):
     from sqlparse import tokens as T
     try:
@@ -337,7 +351,7 @@ def _operator_before_newline(text):
     except Exception:  # noqa
         return False
     for i, (tt, v) in enumerate(toks):
-        if tt in T.Operator:
+        if tt in T.Operator or tt in T.Wildcard:
             j = i + 1
             while j < len(toks) and toks[j][0] in T.Whitespace and toks[j][0] not in T.Newline:
                 j += 1
@@ -347,34 +361,44 @@ def _operator_before_newline(text):
 
 
 def _unspaced_operators_at_group_edge(res):
-    """Every operator of the output that lacks whitespace on a side is the first/last child of its group (the filter
-    looks for neighbours inside the operator's own token list only)."""
+    """Every operator of the output that lacks whitespace on a side is the first/last child of its group on that side
+    (the filter looks for neighbours inside the operator's own token list only; a statement is such a list too)."""
     import sqlparse
     from sqlparse import tokens as T
     try:
         stmts = sqlparse.parse(res)
     except Exception:  # noqa
         return False
-    ok = True
-    found = False
-    for st in stmts:
-        leaves = list(st.flatten())
-        for i, t in enumerate(leaves):
-            if t.ttype in T.Operator:
-                left = i == 0 or leaves[i - 1].is_whitespace
-                right = i + 1 == len(leaves) or leaves[i + 1].is_whitespace
-                if left and right:
-                    continue
-                found = True
-                par = t.parent
-                idx = par.token_index(t)
-                edge = (not left and idx == 0) or (not right and idx == len(par.tokens) - 1)
-                if not edge:
-                    ok = False
+    leaves = [t for st in stmts for t in st.flatten()]
+    ok, found = True, False
+    for i, t in enumerate(leaves):
+        if t.ttype in T.Operator:
+            left = i > 0 and leaves[i - 1].is_whitespace
+            right = i + 1 < len(leaves) and leaves[i + 1].is_whitespace
+            if left and right:
+                continue
+            found = True
+            par = t.parent
+            idx = par.token_index(t)
+            if not left and idx != 0 and i > 0:
+                ok = False
+            if not right and idx != len(par.tokens) - 1 and i + 1 < len(leaves):
+                ok = False
     return found and ok
 
 
+def _has_go(text):
+    from sqlparse import tokens as T
+    try:
+        return any(tt is T.Keyword and v.split()[0] == 'GO' for tt, v in _toks(text))
+    except Exception:  # noqa
+        return False
+
+
 CLASS_PRED = {
+    # format() right-strips every statement and joins them with '': after a GO batch separator (a terminator that is
+    # not ';') the next statement is glued to it, so a second run sees different tokens (C06-GO-fusion)
+    'go-separator-fusion': lambda f: f.get('kind', '').startswith('not_fixed_point:') and _has_go(_txt_in(f)),
     # strip_whitespace is not a fixed point: (a) a line break before a comma is removed AFTER blanks were collapsed
     # ('a  ,b' -> 'a ,b' -> 'a,b'); (b) a comment swallows the line breaks that follow it
     'sw-not-fixed-point-comma-or-comment': lambda f: f.get('kind') == 'not_fixed_point:sw'
